@@ -91,6 +91,9 @@ func (cc *CheckCtx) runStage(s stage) {
 		cc.Notes = append(cc.Notes, fmt.Sprintf("stage %s (%s) is part of the thorough tier only", s.Name, s.Space))
 		return
 	}
+	if s.Tier == "quick" && cc.Tier == "thorough" {
+		return // subset of a stage the thorough tier runs completely
+	}
 	sc := &stageCtx{cc: cc, rp: cc.W.Contr[s.Pkg].Repr, calls: map[string][]callRec{}}
 	opts := s.Opts
 	userHook := opts.OnCall
@@ -219,6 +222,10 @@ func (cc *CheckCtx) runStage(s stage) {
 		cc.Results = append(cc.Results, r)
 	}
 	cc.Exhaustive = true
+	if s.Tier == "quick" {
+		cc.Subset = true
+		cc.Notes = append(cc.Notes, fmt.Sprintf("quick tier: stage %s enumerates a subset (%s)", s.Name, s.Space))
+	}
 }
 
 // ---------- instance generators ----------
